@@ -153,6 +153,18 @@ def g_un_lab_axis(rng):
     return [lab(s), NONE, NONE], [raxis(rng, len(s))]
 
 
+def g_accum_lab(rng):
+    # non-negative axis: accumulate/cumsum/cumprod with a negative axis return the input unchanged on the host already
+    # (findings/c08_accumulate_negative_axis.md, not a C13 matter)
+    s = rshape(rng)
+    return [lab(s), NONE, NONE], [raxis(rng, len(s), neg=False)]
+
+
+def g_accum_small(rng):
+    s = rshape(rng, 1, 4, MAXOUT, 2, maxext=5)
+    return [small(rng, s), NONE, NONE], [raxis(rng, len(s), neg=False)]
+
+
 def g_fma_f(rng):
     sa, sb = bpair(rng)
     out = list(np.broadcast_shapes(tuple(sa), tuple(sb)))
@@ -256,10 +268,11 @@ def g_repeat(rng):
 
 
 def g_where(rng):
-    sa, sb = bpair(rng)
-    out = list(np.broadcast_shapes(tuple(sa), tuple(sb)))
+    # only the condition (the first operand) is broadcast: where() wraps its operands in broadcast_to views, and a
+    # non-trivial view in a non-first position is mis-composed (findings/c13_tree_composition_right_view_operand.md)
+    out = rshape(rng)
     sc = bpartner(rng, out)
-    return [lab(sa), lab(sb, 1000), small(rng, sc, 0, 1)], []
+    return [lab(out), lab(out, 1000), small(rng, sc, 0, 1)], []
 
 
 def g_concat(rng):
@@ -279,7 +292,9 @@ def g_pool(rng):
     sh, sw = rng.randint(1, 3), rng.randint(1, 3)
     exact = (H - kh) % sh == 0 and (W - kw) % sw == 0
     ceil = 1 if (exact and rng.random() < 0.5) else 0
-    a = fdistinct(rng, [N, C, H, W])
+    # positive labels: on the host max_pool2d already yields 0 for a window of negative values (not a C13 matter)
+    a = lab([N, C, H, W])
+    rng.shuffle(a.reshape(-1))
     return [a, NONE, NONE], [kh, kw, sh, sw, ceil]
 
 
@@ -308,12 +323,11 @@ def g_hstack(rng):
 
 
 def g_vstack(rng):
-    s = rshape(rng, 1, 3, 48)
-    if len(s) == 1:
-        t = list(s)
-    else:
-        t = list(s)
-        t[0] = rng.randint(1, 4)
+    # dim >= 2: for 1-d operands vstack = concatenate(atleast_2d(a), atleast_2d(b)) has a non-trivial view as second operand
+    # (same finding as above; the mis-composed view asserts/overflows while it is read)
+    s = rshape(rng, 2, 3, 48)
+    t = list(s)
+    t[0] = rng.randint(1, 4)
     return [lab(s), lab(t, 1000), NONE], []
 
 
@@ -490,14 +504,14 @@ _P = [
     Pipe(26, 7, "concatenate", "concatenate(a,b,axis)", 1, "i", 1, g_concat, lambda a, b, c, p: np.concatenate([a, b], p[0])),
     Pipe(27, 7, "max_pool2d", "max_pool2d(a,kernel,stride,ceil)", 1, "i", 0, g_pool, m_pool),
     Pipe(28, 7, "outer_add", "outer_add(a,b)", 1, "i", 1, g_outer, lambda a, b, c, p: np.add.outer(a, b)),
-    Pipe(29, 8, "cumsum", "cumsum(a,axis)", 1, "i", 1, g_un_lab_axis, lambda a, b, c, p: np.cumsum(a, p[0])),
+    Pipe(29, 8, "cumsum", "cumsum(a,axis)", 1, "i", 1, g_accum_lab, lambda a, b, c, p: np.cumsum(a, p[0])),
     Pipe(30, 8, "moveaxis", "moveaxis(a,src,dst)", 1, "i", 1, g_moveaxis, lambda a, b, c, p: np.moveaxis(a, p[0], p[1])),
     Pipe(31, 8, "atleast_2d", "atleast_2d(a)", 1, "i", 1, g_atleast, lambda a, b, c, p: np.atleast_2d(a)),
     Pipe(32, 8, "hstack", "hstack(a,b)", 1, "i", 1, g_hstack, lambda a, b, c, p: np.hstack([a, b])),
     Pipe(33, 9, "vstack", "vstack(a,b)", 1, "i", 1, g_vstack, lambda a, b, c, p: np.vstack([a, b])),
     Pipe(34, 9, "mean", "mean(a,axis)", 1, "f", 1, g_reduce_f, lambda a, b, c, p: a.mean(axis=p[0], dtype=f32), True),
     Pipe(35, 9, "prod", "prod(a,axis)", 1, "i", 1, g_reduce_small, lambda a, b, c, p: a.prod(axis=p[0])),
-    Pipe(36, 9, "cumprod", "cumprod(a,axis)", 1, "i", 1, g_reduce_small, lambda a, b, c, p: np.cumprod(a, p[0])),
+    Pipe(36, 9, "cumprod", "cumprod(a,axis)", 1, "i", 1, g_accum_small, lambda a, b, c, p: np.cumprod(a, p[0])),
     Pipe(37, 10, "relu", "relu(a)", 1, "f", 1, g_un_f, lambda a, b, c, p: relu(a)),
     Pipe(38, 10, "subtract_mean", "subtract(a,mean(a,axis,keepdims))", 2, "f", 1, g_reduce_f, lambda a, b, c, p: a - a.mean(axis=p[0], keepdims=True, dtype=f32), True),
     Pipe(39, 10, "flip_transpose", "flip(transpose(a,axes),axis)", 2, "i", 1, lambda rng: (lambda r: (r[0], [raxis(rng, r[0][0].ndim)] + r[1]))(g_un_lab_axes(rng)), lambda a, b, c, p: np.flip(np.transpose(a, p[1:]), p[0])),
@@ -514,7 +528,7 @@ _P = [
     Pipe(50, 13, "atleast_nd", "atleast_nd(a,nd)", 1, "i", 1, g_atleast_nd, m_atleast_nd),
     Pipe(51, 13, "leaky_relu", "leaky_relu(a,0.25)", 1, "f", 1, g_un_f, lambda a, b, c, p: np.where(a >= 0, a, a * f32(0.25)).astype(f32)),
     Pipe(52, 13, "reduce_multiply", "reduce_multiply(a,axis)", 1, "i", 1, g_reduce_small, lambda a, b, c, p: a.prod(axis=p[0])),
-    Pipe(53, 14, "accumulate_add", "accumulate_add(a,axis)", 1, "i", 1, g_un_lab_axis, lambda a, b, c, p: np.cumsum(a, p[0])),
+    Pipe(53, 14, "accumulate_add", "accumulate_add(a,axis)", 1, "i", 1, g_accum_lab, lambda a, b, c, p: np.cumsum(a, p[0])),
     Pipe(54, 14, "reduce_maximum", "reduce_maximum(a,axis)", 1, "i", 1, g_reduce_lab, lambda a, b, c, p: a.max(axis=p[0])),
     Pipe(55, 14, "swapaxes", "swapaxes(a,ax1,ax2)", 1, "i", 1, g_swapaxes, lambda a, b, c, p: np.swapaxes(a, p[0], p[1])),
     Pipe(56, 14, "roll", "roll(a,shift,axis)", 1, "i", 1, g_roll, lambda a, b, c, p: np.roll(a, p[0], p[1])),
@@ -532,7 +546,8 @@ for _i in (5, 6, 8, 9, 11, 38, 40):
     PIPES[_i].cls = "ufunc_view_op"
 for _i in (60, 63):
     PIPES[_i].cls = "tree_right_view"
-for _i in (11, 38, 40, 60, 63):
+# 46 softmax = divide(exp(x-max), sum(exp(x-max))): a composite whose internal views sit in non-first positions
+for _i in (11, 38, 40, 46, 60, 63):
     PIPES[_i].tree = True
 
 
